@@ -117,6 +117,21 @@ def main(tier):
                 b = json.dumps(P.out_proj(fn(u, u)), sort_keys=True)
                 events.append({"op": "AliasRefused" if name.startswith("foreign") else "Alias", "entry": name, "s": s, "u": u, "legacy": a, "current": b,
                                "ok": a.startswith('{"ok"')})
+        # the same doors in another order of calls, on a second freshly built database: the look-ups (unit name, unit info, default category,
+        # conversions) come before the first value is ever created with the spelling
+        db_b = export.build_db("default")
+        UnitDatabase.PushSingleton(db_b)
+        try:
+            E_b = _entries(db_b, qt_of, base_of, defcat_of, thorough)
+            order_b = [("GetUnitName(qt,u)", lambda s, u: P.outcome(db_b.GetUnitName, qt_of[u], s))] + list(reversed(list(E_b.items())))
+            for s, u in spellings:
+                for name, fn in order_b:
+                    a = json.dumps(P.out_proj(fn(s, u)), sort_keys=True)
+                    b = json.dumps(P.out_proj(fn(u, u)), sort_keys=True)
+                    events.append({"op": "AliasRefused" if name.startswith("foreign") else "Alias", "entry": name + " (look-ups first)", "s": s, "u": u, "legacy": a, "current": b,
+                                   "ok": a.startswith('{"ok"')})
+        finally:
+            UnitDatabase.PopSingleton()
         # category registration with legacy spellings, on a fresh database (registration mutates)
         db2 = export.build_db("default")
         UnitDatabase.PushSingleton(db2)
